@@ -668,6 +668,29 @@ func (p *printer) ref(t *Term) string {
 	if nm, ok := p.names[t]; ok {
 		return nm
 	}
+	if t.Op == "like" {
+		// (like s e1 .. en) with Par[i] = 0 literal / 1 any one character / 2 any string
+		var parts []string
+		for i, k := range t.Par {
+			switch k {
+			case 1:
+				parts = append(parts, "re.allchar")
+			case 2:
+				parts = append(parts, "(re.* re.allchar)")
+			default:
+				parts = append(parts, "(str.to_re "+p.ref(t.Args[i+1])+")")
+			}
+		}
+		for len(parts) < 2 {
+			parts = append(parts, "(str.to_re \"\")")
+		}
+		s := "(str.in_re " + p.ref(t.Args[0]) + " (re.++ " + strings.Join(parts, " ") + "))"
+		p.n++
+		nm := fmt.Sprintf("t!%d", p.n)
+		p.names[t] = nm
+		p.defs = append(p.defs, fmt.Sprintf("(define-fun %s () Bool %s)", nm, s))
+		return nm
+	}
 	var b strings.Builder
 	b.WriteByte('(')
 	switch t.Op {
@@ -736,3 +759,43 @@ func (t *Term) str(b *strings.Builder, depth int) {
 }
 
 var _ = bits.Len64
+
+// likeMatch: pattern elements (kind 0 literal string, 1 any one character, 2 any string)
+// against a concrete string.
+func likeMatch(kinds []int, lits []string, s string) bool {
+	if len(kinds) == 0 {
+		return s == ""
+	}
+	switch kinds[0] {
+	case 2:
+		for i := 0; i <= len(s); i++ {
+			if likeMatch(kinds[1:], lits[1:], s[i:]) {
+				return true
+			}
+		}
+		return false
+	case 1:
+		return len(s) > 0 && likeMatch(kinds[1:], lits[1:], s[1:])
+	}
+	return strings.HasPrefix(s, lits[0]) && likeMatch(kinds[1:], lits[1:], s[len(lits[0]):])
+}
+
+// tLike builds the membership term; folds when everything is concrete.
+func tLike(s *Term, kinds []int, lits []*Term) *Term {
+	allConst := s.Const
+	for i, k := range kinds {
+		if k == 0 && !lits[i].Const {
+			allConst = false
+		}
+	}
+	if allConst {
+		ls := make([]string, len(lits))
+		for i, l := range lits {
+			ls[i] = l.S
+		}
+		return mkBool(likeMatch(kinds, ls, s.S))
+	}
+	t := mkApp(SBool, "like", append([]*Term{s}, lits...)...)
+	t.Par = append([]int{}, kinds...)
+	return t
+}
